@@ -151,6 +151,8 @@ def run_trace(cfg):
         cfg["_uniset"] = make_uniset()
     opt, init = build(cfg, obj, g2p, cb, rng_init)
     init_before = L.snap(init) if init is not None else None
+    if cfg.get("_between_build_and_fit") is not None:
+        cfg["_between_build_and_fit"]()          # e.g. draws / other runs between constructing the optimizer and fit()
     opt.fit()
     final = observe(opt, obj, cfg)
     sign = -1.0 if cfg["minimization"] else 1.0
